@@ -69,43 +69,38 @@ def makeFloat (f : Fmt) (tblPos tblNeg : List Nat) (m : Nat) (e : Int) : Option 
 inductive PNum | invalid | uint (n : Nat) | sint (n : Int) | f32 (bits : Nat) | f64 (bits : Nat) | fault
 deriving Repr, DecidableEq
 
-def wrap16 (x : Int) : Int := ((x + 32768) % 65536) - 32768
-
+/-- leading digits accumulated into the 64-bit mantissa; stops before a digit that would overflow -/
 def takeDigitsMant (maxU : Nat) : Nat → List Byte → Nat × List Byte
   | mant, [] => (mant, [])
   | mant, c :: cs =>
     if isDigit c then
       if mant > maxU / 10 then (mant, c :: cs)
-      else
-        let m10 := mant * 10
-        if m10 > maxU - digitVal c then (m10, c :: cs)      -- the C++ breaks *after* multiplying
-        else takeDigitsMant maxU (m10 + digitVal c) cs
+      else if mant * 10 > maxU - digitVal c then (mant, c :: cs)
+      else takeDigitsMant maxU (mant * 10 + digitVal c) cs
     else (mant, c :: cs)
 
 def reduceMant (mmax : Nat) : Nat → Nat → Int → Nat × Int
   | 0, m, off => (m, off)
-  | fuel+1, m, off => if m > mmax then reduceMant mmax fuel (m / 10) (wrap16 (off + 1)) else (m, off)
+  | fuel+1, m, off => if m > mmax then reduceMant mmax fuel (m / 10) (off + 1) else (m, off)
 
 def skipDigitsCount : List Byte → Int → List Byte × Int
   | [], off => ([], off)
-  | c :: cs, off => if isDigit c then skipDigitsCount cs (wrap16 (off + 1)) else (c :: cs, off)
+  | c :: cs, off => if isDigit c then skipDigitsCount cs (off + 1) else (c :: cs, off)
 
 def fracDigits (mmax : Nat) : List Byte → Nat → Int → List Byte × Nat × Int
   | [], m, off => ([], m, off)
   | c :: cs, m, off =>
     if isDigit c then
-      if m < mmax / 10 then fracDigits mmax cs (m * 10 + digitVal c) (wrap16 (off - 1))
+      if m < mmax / 10 then fracDigits mmax cs (m * 10 + digitVal c) (off - 1)
       else fracDigits mmax cs m off
     else (c :: cs, m, off)
 
-/-- exponent digits; returns `none` for early overflow exit -/
-def expDigits (emax : Int) (off : Int) : List Byte → Int → Option (List Byte × Int)
-  | [], e => some ([], e)
+/-- exponent digits, saturating (the accumulator stops growing once it reaches 100000) -/
+def expDigits : List Byte → Nat → List Byte × Nat
+  | [], e => ([], e)
   | c :: cs, e =>
-    if isDigit c then
-      let e' := e * 10 + digitVal c
-      if e' + off > emax then none else expDigits emax off cs e'
-    else some (c :: cs, e)
+    if isDigit c then expDigits cs (if e < 100000 then e * 10 + digitVal c else e)
+    else (c :: cs, e)
 
 def negBits (f : Fmt) (neg : Bool) (b : Nat) : Nat := if neg then (if b ≥ f.signBit then b - f.signBit else b + f.signBit) else b
 
@@ -120,6 +115,7 @@ def parseNumber (cfg : Cfg) (s : List Byte) : PNum :=
   if !(isDigit c0) && c0 != 0x2E then .invalid else
   let maxU := 2^64 - 1
   let mmax := Gen.mantissa_max64
+  let emax : Int := Gen.exponent_max64
   let (mant, s) := takeDigitsMant maxU 0 s
   if s.isEmpty && !neg then .uint mant else
   if s.isEmpty && neg && mant ≤ 2^63 then .sint (-(mant : Int)) else
@@ -128,7 +124,7 @@ def parseNumber (cfg : Cfg) (s : List Byte) : PNum :=
   let (s, mant, off) := match s with
     | 0x2E :: r => fracDigits mmax r mant off
     | _ => (s, mant, off)
-  let expPart : Option (List Byte × Int) :=
+  let (s, e) : List Byte × Int :=
     match s with
     | c :: r =>
       if c == 0x65 || c == 0x45 then
@@ -136,31 +132,27 @@ def parseNumber (cfg : Cfg) (s : List Byte) : PNum :=
           | 0x2D :: r' => (true, r')
           | 0x2B :: r' => (false, r')
           | _ => (false, r)
-        match expDigits Gen.exponent_max64 off r 0 with
-        | none => none
-        | some (r', e) => some (r', if negE then -e else e)
-      else some (s, 0)
-    | [] => some ([], 0)
-  -- early exit: overflow of the exponent while scanning
-  match expPart with
-  | none =>
-    -- need to know negE again: recompute
-    let negE := match s with
-      | _ :: 0x2D :: _ => true
-      | _ => false
-    if negE then .f32 (negBits b32 neg 0) else .f64 (infBits b64 neg)
-  | some (s, e) =>
-    let e := e + off
-    if !s.isEmpty then .invalid else
+        let (r', e) := expDigits r 0
+        (r', if negE then -(e : Int) else (e : Int))
+      else (s, 0)
+    | [] => ([], 0)
+  let e := e + off
+  if !s.isEmpty then .invalid else
+  (
+    if mant == 0 then .f32 (negBits b32 neg 0) else
+    if e > emax then .f64 (infBits b64 neg) else
+    if e < -(emax + 17) then .f32 (negBits b32 neg 0) else
     let isDouble := e < -(Gen.exponent_max32 : Int) || e > (Gen.exponent_max32 : Int) || mant > Gen.mantissa_max32
-    if isDouble then
+    let viaDouble : PNum :=
       match makeFloat b64 pos64 neg64 (ofNat b64 mant) e with
       | none => .fault
       | some r => .f64 (negBits b64 neg r)
+    if isDouble then viaDouble
     else
       match makeFloat b32 pos32 neg32 (ofNat b32 mant) e with
       | none => .fault
-      | some r => .f32 (negBits b32 neg r)
+      | some r => if isInf b32 r then viaDouble else .f32 (negBits b32 neg r)
+  )
 
 /-! ## binary64 -> binary32 and back, for VariantData::setFloat(double) -/
 def cvt (src dst : Fmt) (bits : Nat) : Nat :=
@@ -232,9 +224,11 @@ def skipKeyword : List Byte → St → Code × St
     if c == 0 then (.incomplete, s) else if c != k then (.invalid, s) else skipKeyword ks (mv s)
 
 def decodeHex (c : Byte) : Nat :=
-  -- char is signed in the C++: bytes ≥ 0x80 are negative, hence `< 'A'`
-  if c < 0x41 || c ≥ 0x80 then (c.toNat + 256 - 0x30) % 256
-  else ((c &&& 0xDF).toNat + 256 - 0x41 + 10) % 256
+  -- char is signed in the C++: bytes ≥ 0x80 are negative, hence `<= '9'`
+  if c ≤ 0x39 || c ≥ 0x80 then (c.toNat + 256 - 0x30) % 256
+  else
+    let u := c &&& 0xDF
+    if u < 0x41 then 0xFF else (u.toNat + 256 - 0x41 + 10) % 256
 
 def parseHex4 : Nat → Nat → St → Code × Nat × St
   | 0, acc, s => (.ok, acc, s)
@@ -326,11 +320,9 @@ def parseNumeric (cfg : Cfg) (s : St) : Code × Val × St :=
   | .fault => (.fuel, .null, s)
 
 def setMember (ms : List (List Byte × Val)) (k : List Byte) (v : Val) : List (List Byte × Val) :=
-  -- the C++ looks the key up by c_str(): comparison stops at the first NUL
-  let cut (x : List Byte) := x.takeWhile (· != 0)
   match ms with
   | [] => [(k, v)]
-  | (k', v') :: rest => if k' == cut k then (k', v) :: rest else (k', v') :: setMember rest k v
+  | (k', v') :: rest => if k' == k then (k', v) :: rest else (k', v') :: setMember rest k v
 
 mutual
 def parseVariant (cfg : Cfg) : (fuel : Nat) → (limit : Nat) → St → Code × Val × St
@@ -424,7 +416,7 @@ def run (cfg : Cfg) (limit : Nat) (input : List Byte) : Code × Val × Nat :=
   let s0 : St := { l := { unread := input } }
   match parseVariant cfg (2 * input.length + 4) limit s0 with
   | (.ok, v, s) =>
-    if s.l.cur != 0 && isNumberVal v then (.invalid, v, s.l.pos) else (.ok, v, s.l.pos)
+    if s.l.cur != 0 && !isWs s.l.cur && isNumberVal v then (.invalid, v, s.l.pos) else (.ok, v, s.l.pos)
   | (e, v, s) => (e, v, s.l.pos)
 
 /-! ## Filter (Deserialization/Filter.hpp) over a filter document -/
@@ -464,8 +456,7 @@ def Flt.subKey (f : Flt) (key : List Byte) : Flt :=     -- filter[key.c_str()]
     if isTrueVal v then f else
     match v with
     | .obj ms =>
-      let k := key.takeWhile (· != 0)
-      let m := lookupKey ms k
+      let m := lookupKey ms key
       if isNullOpt m then .doc (lookupKey ms [0x2A]) else .doc m
     | _ => .doc none
 def Flt.subIdx (f : Flt) : Flt :=                        -- filter[0]
@@ -687,7 +678,7 @@ def frun (cfg : Cfg) (limit : Nat) (flt : Flt) (input : List Byte) : Code × Val
   let s0 : St := { l := { unread := input } }
   match fparseVariant cfg (2 * input.length + 4) limit flt s0 with
   | (.ok, v, s) =>
-    if s.l.cur != 0 && isNumberVal v then (.invalid, v, s.l.pos) else (.ok, v, s.l.pos)
+    if s.l.cur != 0 && !isWs s.l.cur && isNumberVal v then (.invalid, v, s.l.pos) else (.ok, v, s.l.pos)
   | (e, v, s) => (e, v, s.l.pos)
 
 end JD
